@@ -151,7 +151,9 @@ def parse_graphic_sequence(
         try:
             items[idx] = int(value)
         except ValueError:
-            pass
+            if isinstance(value, str) and not value.strip():
+                # An empty parameter stands for its default value, which is 0 (RESET) in a graphic rendition sequence
+                items[idx] = AnsiParam.RESET.value
 
     left_in_set = 0
     current_set = []
